@@ -106,6 +106,13 @@ structure Avar2 where
 code clamped to `F2Dot14::MIN ..= F2Dot14::MAX` before, i.e. not at all). -/
 def clampUnit (v : Int) : Int := if v < -16384 then -16384 else if v > 16384 then 16384 else v
 
+/-- the delta set for coordinate `i`: `map.get(i)` (`none` = `Err`, the coordinate is skipped) or
+the implicit `(0, i as u16)`. -/
+def avar2Index (t : Avar2) (i : Nat) : Option (Nat × Nat) :=
+  match t.indexMap with
+  | some (fmt, cnt, data) => Tent.dsimGet fmt cnt data i
+  | none => some (0, i % 65536)
+
 /-- new value of coordinate `i` (`v` = its version-1 value, `coords` = all version-1 values):
 ```
 let var_index = if let Some(Ok(ref map)) = var_index_map { map.get(i as u32).ok() }
@@ -116,10 +123,7 @@ if let Some(Ok(varstore)) = var_store.as_ref() {
         new_coords[i] = F2Dot14::from_f32((*v).apply_float_delta(delta)).clamp(-ONE, ONE);
 ``` -/
 def avar2Coord (t : Avar2) (coords : List Int) (i : Nat) (v : Int) : Int :=
-  let idx : Option (Nat × Nat) := match t.indexMap with
-    | some (fmt, cnt, data) => Tent.dsimGet fmt cnt data i
-    | none => some (0, i % 65536)
-  match idx, t.store with
+  match avar2Index t i, t.store with
   | some (outer, inner), some (regions, subs) =>
     match computeFloatDelta regions subs outer inner coords with
     | some delta => clampUnit (FixedConv.fromFloat FixedConv.F2Dot14 (applyF2Dot14 v delta))
